@@ -220,6 +220,29 @@ def fifo(ctx):
             # a legitimate "put back at the front" idiom: popleft consumer + appendleft to re-queue
             if prod_l and 'popleft' in ops and prod_r:
                 lifo = [x for x in lifo if 'popleft' not in x]
+            # rebuilds: `self.attr = <deque built from self.attr>` must keep the order
+            for mname, m in ci.methods.items():
+                if mname == '__init__':
+                    continue
+                for s_ in walk_local(m):
+                    if isinstance(s_, ast.Assign) and any(dotted(t) == f'self.{attr}' for t in s_.targets):
+                        v = s_.value
+                        kept = None
+                        if isinstance(v, ast.Name):
+                            kept = v.id
+                        elif isinstance(v, ast.Call) and v.args and isinstance(v.args[0], ast.Name) and (dotted(v.func) or '').split('.')[-1] == 'deque':
+                            kept = v.args[0].id
+                        if kept is None:
+                            continue
+                        for lp in walk_local(m):
+                            if isinstance(lp, ast.For) and f'self.{attr}' in text(lp.iter):
+                                rev_iter = 'reversed(' in text(lp.iter)
+                                for c in calls_in(lp):
+                                    if isinstance(c.func, ast.Attribute) and dotted(c.func.value) == kept:
+                                        if (c.func.attr in ('appendleft', 'extendleft')) != rev_iter and c.func.attr in ('append', 'appendleft', 'extend', 'extendleft', 'insert'):
+                                            lifo.append(f'{mname}() rebuilds the queue from itself with {c.func.attr}() while iterating {"backwards" if rev_iter else "forwards"}: surviving entries are reversed')
+                                        if c.func.attr == 'insert' and c.args and text(c.args[0]) == '0' and not rev_iter:
+                                            lifo.append(f'{mname}() rebuilds the queue with insert(0, ...): surviving entries are reversed')
             if lifo:
                 R.bad(rule, key, 'deque is consumed last-in first-out: ' + '; '.join(lifo), ops.get('pop', ops.get('popleft', ['']))[0])
             else:
@@ -384,6 +407,12 @@ def wiring(ctx):
         # zip(handles, counts) -> (handle, count); the call takes (count, handle)
         if zipped and len(tnames) == 2 and [dotted(a) for a in c.args] == [tnames[1], tnames[0]]:
             ok = True
+    # every entry of the event is processed: no `return` / `break` inside the per-entry loop
+    for lp in walk_local(ncp):
+        if isinstance(lp, ast.For) and any(call_attr(c) == 'on_packets_completed' for c in calls_in(lp)):
+            leaves = [x for x in walk_local(lp) if isinstance(x, (ast.Return, ast.Break))]
+            R.check(not leaves, rule, f'{H}.on_hci_number_of_completed_packets_event | all entries processed', 'the per-entry loop has no return/break: an unknown handle does not hide later entries',
+                    'the loop over (handle, count) entries can stop early (return/break): completions listed after an unknown handle are dropped and their packets wait forever', p.loc(leaves[0]) if leaves else p.loc(lp))
     R.check(ok, rule, f'{H}.on_hci_number_of_completed_packets_event', 'each (handle, count) pair of the event is reported to the queue of that handle as (count, handle)',
             'completed-packet counts are not forwarded pairwise as (count, handle) to the queue', p.loc(ncp))
     fl = [c for c in calls_in(dce) if call_attr(c) == 'flush' and 'packet_queue' in (dotted(c.func) or '')]
